@@ -1,5 +1,6 @@
 import itertools
 import logging
+import os
 import re
 import sys
 from collections import OrderedDict, namedtuple
@@ -18,6 +19,16 @@ CASADI_COMPARISON_DEPTH = sys.maxsize
 SUBSTITUTE_LOOP_LIMIT = 100
 SIMPLIFICATION_LOOP_LIMIT = 50
 CASADI_ATTRIBUTES = ("value", "min", "max", "start", "fixed", "nominal")
+
+
+# Verification hook (off unless PYMOCA_VERIF=1 and a harness installs a callback):
+# reports the model after each simplification pass.
+_VERIF_HOOK = None
+
+
+def _verif_pass(name, model):
+    if _VERIF_HOOK is not None and os.environ.get("PYMOCA_VERIF") == "1":
+        _VERIF_HOOK(name, model)
 
 
 class _DefaultValue(int):
@@ -484,6 +495,7 @@ class Model:
             self.equations = self._expand_simplify_mx(self.equations)
             self.initial_equations = self._expand_simplify_mx(self.initial_equations)
 
+        _verif_pass("expand_vectors_sx", self)
         if options["resolve_parameter_values"]:
             # Resolve all numeric parameter values that are set (i.e. value
             # not equal to NaN). Inline the values, but keep the parameter
@@ -523,6 +535,7 @@ class Model:
 
                 current_parameters_and_constants = next_parameters_and_constants
 
+        _verif_pass("resolve_parameter_values", self)
         if options["replace_parameter_expressions"]:
             logger.info("Replacing parameter expressions")
 
@@ -573,6 +586,7 @@ class Model:
                 # Replace parameter expressions in metadata
                 self._substitute_metadata(symbols, values)
 
+        _verif_pass("replace_parameter_expressions", self)
         if options["replace_constant_expressions"]:
             logger.info("Replacing constant expressions")
 
@@ -613,6 +627,7 @@ class Model:
                 # Replace constant expressions in metadata
                 self._substitute_metadata(symbols, values)
 
+        _verif_pass("replace_constant_expressions", self)
         if options["eliminate_constant_assignments"]:
             logger.info("Elimating constant variable assignments")
 
@@ -668,6 +683,7 @@ class Model:
             self.alg_states = list(alg_states.values())
             self.equations = reduced_equations
 
+        _verif_pass("eliminate_constant_assignments", self)
         if options["replace_parameter_values"]:
             logger.info("Replacing parameter values")
 
@@ -689,6 +705,7 @@ class Model:
             # Replace parameter values in metadata
             self._substitute_metadata(symbols, values)
 
+        _verif_pass("replace_parameter_values", self)
         if options["replace_constant_values"]:
             logger.info("Replacing constant values")
 
@@ -717,6 +734,7 @@ class Model:
             # Replace constant values in metadata
             self._substitute_metadata(symbols, values)
 
+        _verif_pass("replace_constant_values", self)
         if options["eliminable_variable_expression"] is not None:
             logger.info(
                 "Elimating variables that match the regular expression {}".format(
@@ -913,10 +931,12 @@ class Model:
                         self.delay_arguments, variables, values
                     )
 
+        _verif_pass("eliminable_variable_expression", self)
         if options["expand_vectors"] and not options["expand_mx"]:
             # If we are _not_ expanding MX to SX, we do the expansion of vectors here
             self._expand_vectors()
 
+        _verif_pass("expand_vectors_mx", self)
         if options["factor_and_simplify_equations"]:
             # Operations that preserve the equivalence of an equation
             # TODO: There may be more, but this is the most frequent set
@@ -954,6 +974,7 @@ class Model:
             # Store changes
             self.equations = simplified_equations
 
+        _verif_pass("factor_and_simplify_equations", self)
         if options["detect_aliases"]:
             logger.info("Detecting aliases")
 
@@ -1204,6 +1225,7 @@ class Model:
                     self.delay_arguments, variables, values
                 )
 
+        _verif_pass("detect_aliases", self)
         if options["reduce_affine_expression"]:
             logger.info("Collapsing model into an affine expression")
 
@@ -1269,10 +1291,12 @@ class Model:
                     equations = [ca.reshape(ca.mtimes(A, states_vector), equations.shape) + b]
                     setattr(self, equation_list, equations)
 
+        _verif_pass("reduce_affine_expression", self)
         if options["expand_mx"]:
             logger.info("Expanded MX functions will be returned")
             self._expand_mx_func = lambda x: x.expand()
 
+        _verif_pass("expand_mx", self)
         logger.info("Finished model simplification")
 
     @property
